@@ -246,7 +246,9 @@ RULES = [
     ("X-LITVALUE", "a literal evaluates to the text written in the query (patterns, size literals, arguments) [shared]", lambda ctx: __import__("extra2").literal_is_its_text(ctx)),
     ("C13-R2", "date literals: interval table of parse_datetime, captures of the extracted regex [shared with C13]", lambda ctx: __import__("c13").r2(ctx)),
     ("C13-R3", "date regex groups and their use, output format, local-time conversion of time columns [shared with C13]", lambda ctx: __import__("c13").r3(ctx)),
+    ("C04-R1", "boolean columns: every permission / file-type predicate on all 4096 permission values and the 7 type codes [shared with C04]", lambda ctx: __import__("c04").r1(ctx)),
     ("X-OPERANDS", "each operand of a comparison is evaluated afresh (no memo shared between operands or conditions: a remembered value comes back as text) [shared]", lambda ctx: __import__("conf").operands_evaluated_afresh(ctx)),
+    ("X-REEVAL", "an expression evaluated twice for one entry has the same typed value both times (no text-valued memo beside the map handed in) [shared]", lambda ctx: __import__("gcev").reevaluation_is_stable(ctx)),
     ("X-NAMES", "column names and function names do not overlap (a bare word is tried as a column first) [shared]", lambda ctx: __import__("extra2").names_disjoint(ctx)),
     ("X-LEXCLASS", "lexer character classes, context flags, token ends and quoted-literal ends [shared]", lambda ctx: __import__("extra").lexer_classes(ctx)),
 ]
